@@ -33,7 +33,14 @@ pub fn prec(a: Expression) -> Expression {
 pub const NAME_POOL: &[&str] = &["a", "b", "file1.txt", "FILE1.TXT", "*.txt", "f?le*", "[a-f]*", "data", "Data", "*", "x.y", "sub"];
 pub const FILE_POOL: &[&str] = &["out.txt", "a", "b", "c", "list.out", "dir/f", "./a", "A", "a/", " b", "/dev/stdout", "-", "/dev/stderr", "stdout"];
 
+/// Numbers with a meaning to people rather than to machines (decimal round numbers, unit sizes, well-known
+/// ids): a "common case" fast path is keyed on such values.
+pub const MAGIC: [u64; 24] = [10, 60, 99, 100, 255, 256, 365, 500, 512, 999, 1000, 1023, 1024, 3600, 4096, 65534, 65535, 65536, 86400, 100_000, 1_000_000, 1_048_576, 1_000_000_000, 1_073_741_824];
+
 pub fn boundary_u64(r: &mut Rng) -> u64 {
+    if r.chance(1, 12) {
+        return *r.pick(&MAGIC);
+    }
     match r.below(10) {
         0 => 0,
         1 => 1,
@@ -49,6 +56,9 @@ pub fn boundary_u64(r: &mut Rng) -> u64 {
 }
 
 pub fn boundary_u32(r: &mut Rng) -> u32 {
+    if r.chance(1, 10) {
+        return *r.pick(&MAGIC) as u32;
+    }
     match r.below(8) {
         0 => 0,
         1 => 1,
@@ -103,11 +113,12 @@ pub fn mk_time(unit: u64, n: u64) -> TimeSpec {
 }
 
 pub fn gen_time(r: &mut Rng) -> TimeSpec {
-    let n = match r.below(5) {
+    let n = match r.below(6) {
         0 => 0,
         1 => 1,
         2 => r.below(100),
         3 => r.below(20000),
+        4 => *r.pick(&[7u64, 14, 24, 30, 31, 60, 90, 180, 365, 366, 1440, 3600, 10080, 86400]),
         _ => r.below(5),
     };
     mk_time(r.below(4), n)
@@ -1186,6 +1197,61 @@ pub fn directed_records(e: &Expression, now: i128, r: &mut Rng, extra_random: us
                 }
             }
             _ => {}
+        }
+    }
+    // coincidence records: attribute combinations independent values never produce - every numeric field
+    // equal to one constant of the expression (uid = gid = ino = nlink = size = blocks = counts), all three
+    // timestamps equal, a name that is literally the text of its own pattern, an xattr whose value is its
+    // name, a very long path (outputs that cross buffer sizes)
+    if extra_random > 0 {
+        let mut consts: Vec<u64> = vec![];
+        let mut ts2 = vec![];
+        crate::findsem::tests(e, &mut ts2);
+        let mut pats: Vec<String> = vec![];
+        let mut xn: Vec<String> = vec![];
+        for x in &ts2 {
+            match x {
+                Test::GroupId(c) | Test::UserId(c) | Test::InodeNumber(c) | Test::MirrorCount(c) | Test::StripeCount(c) => consts.push(*inner(c) as u64),
+                Test::Links(c) => consts.push(*inner(c)),
+                Test::Size(c) => {
+                    let (n, u) = size_parts(inner(c));
+                    consts.push(n);
+                    consts.push(n.saturating_mul(u));
+                }
+                Test::Name(p) | Test::InsensitiveName(p) | Test::Path(p) | Test::InsensitivePath(p) => pats.push(p.clone()),
+                Test::Xattr(n) | Test::XattrMatch(n, _) => xn.push(n.clone()),
+                _ => {}
+            }
+        }
+        consts.sort();
+        consts.dedup();
+        for c in consts.into_iter().take(3) {
+            let c32 = c.min(u32::MAX as u64);
+            fresh(&mut out, &mut |rec| {
+                rec.uid = c32;
+                rec.gid = c32;
+                rec.ino = c32;
+                rec.nlink = c;
+                rec.size = c;
+                rec.blocks = c;
+                rec.mirror_count = c32;
+                rec.stripe_count = c32;
+                rec.projid = c32;
+                rec.mtime = rec.atime;
+                rec.ctime = rec.atime;
+            });
+        }
+        for p in pats.into_iter().take(2) {
+            if !p.is_empty() && !p.contains('\0') {
+                fresh(&mut out, &mut |rec| rec.relpath = p.clone());
+            }
+        }
+        for n in xn.into_iter().take(2) {
+            fresh(&mut out, &mut |rec| rec.xattrs = vec![(n.clone(), n.clone())]);
+        }
+        if r.chance(1, 6) {
+            let long = format!("deep/{}/leaf", "d".repeat(1 + r.usize(5000)));
+            fresh(&mut out, &mut |rec| rec.relpath = long.clone());
         }
     }
     // formats that read xattrs / pools: give some records those
